@@ -796,11 +796,15 @@ def units (side, rng, tier):
                               "short" if v < len(b) else "long"), \
           b[:2] + struct.pack("!H", v) + b[4:]
     # version
-    for v in ([0, 2, 4, 0x80, 0xff] if quick else range(256)):
+    # (quick: the neighbours of 1, every value one bit away from it, and the
+    #  ends of the range)
+    for v in (sorted(set([0, 2, 4, 0x80, 0xff, 0xfe, 0x7f] +
+                         [1 ^ (1 << i) for i in range(8)])) if quick else range(256)):
       if v == 1: continue
       yield "%s version" % k, bytes([v]) + b[1:]
     # type
-    for v in ([22, 23, 100, 255] if quick else range(256)):
+    for v in (sorted(set([22, 23, 100, 255, b[1] ^ 0x80, b[1] ^ 0x40, b[1] ^ 0x20]))
+              if quick else range(256)):
       if v == b[1]: continue
       yield "%s type" % k, b[:1] + bytes([v]) + b[2:]
     for v in range(22):
